@@ -644,7 +644,6 @@ func c14KillOnce(rep *verifkit.Report, rng *rand.Rand, up *sysUpstream, ls *sysL
 	in2.Kill()
 }
 
-
 // c14WriteFaults runs the server under a file-size limit (RLIMIT_FSIZE through
 // prlimit), so that every write(2) that would make a file larger than the limit
 // fails with EFBIG - the same situation as a full disk or an exceeded quota.
@@ -760,7 +759,6 @@ func c14WriteFaults(rep *verifkit.Report, up *sysUpstream, ls *sysListServer) {
 	rep.Event("restart_after_write_faults_ok")
 	in3.Kill()
 }
-
 
 // c14Overlap makes two downloads of the same list overlap in time: a refresh
 // whose transfer trickles in while the list is saved through set_url with
@@ -1038,7 +1036,6 @@ func c14Large(rep *verifkit.Report, up *sysUpstream, ls *sysListServer) {
 		rep.Inconcl("large-body phase: no large list was stored")
 	}
 }
-
 
 // c14DiskFull puts the data directory on a small tmpfs, fills it up and causes
 // lease-database stores: every store fails with ENOSPC, and the complete
